@@ -116,7 +116,7 @@ def _l2_cases(items):
     live = [(t, st, ins) for (t, st, ins) in items if not st.error]
     for t, st, ins in items:
         if st.error and st.error[0] == "crash":
-            fails.append({"what": "pass-crash", "text": t, "error": st.error[1], "klass": None})
+            fails.append({"what": "pass-crash", "text": t, "fn": st.fn, "error": st.error[1], "klass": None})
     shards = AC.shard(live, 8)
     texts = []
     for sh in shards:
@@ -145,7 +145,7 @@ def _witness(item, what):
     """A failing program with its inputs; the explanation (per-input Coq output) is added lazily
     for the failures that are reported (see search)."""
     text, st, ins = item
-    return {"what": what, "text": text, "inputs": ins, "_st": st, "klass": None}
+    return {"what": what, "text": text, "fn": st.fn, "inputs": ins, "_st": st, "klass": None}
 
 
 def _explain(st, ins):
@@ -202,7 +202,7 @@ def replay(ctx, obj):
     if not f or "text" not in f:
         print("no failing input recorded; broken obligations:", json.dumps(obj.get("no_longer_checks"), indent=1)[:3000])
         return 1
-    st = AC.Staged(f["text"])
+    st = AC.Staged(f["text"], f.get("fn", "f"))
     if st.error:
         print("pass failed:", st.error)
         return 1
